@@ -1,4 +1,84 @@
+(* Properties/C17.v — C17: "Operator traits, assign forms, reference forms and iterator folds agree".
+   In the model (Model/Ops.v) the by-reference forms dereference and call the by-value impl and `a op= b`
+   stores `a op b` — exactly what the macros of src/int/ops.rs expand to — so they are the SAME function as
+   the by-value operator, which in turn is the inherent const method; the correspondence check calls every
+   one of the ~500 generated impls separately against that one function.  What has content in the model, and
+   is proved here for every digit width / count / operand, is: the amount conversion of the twelve primitive
+   shift-amount types and of bnum-typed amounts, the digit-operand forms, and the iterator folds. *)
 From Bnum Require Import Base Prim.
-Theorem C17_placeholder : forall w n ds, 0 <= w -> wf w n ds -> 0 <= uval w ds < Mod w n.
-Proof. exact uval_bounds. Qed.
-Print Assumptions C17_placeholder.
+From Bnum.Model Require Import Digit Core Shift AddSub Mul Div Bits Pow Ops.
+From Bnum.Proofs Require Import AddSubLemmas PowDeps Panics OpsProofs.
+
+(* Shl / Shr with any of the twelve primitive amount types and an amount the type and u32 can hold:
+   the same outcome as the inherent shl / shr on the same operands, in both build modes *)
+Theorem C17_shift_prim_amounts : forall dbg w ty a v, amt_range ty v -> 0 <= v < 2 ^ 32 ->
+  U_Shl_prim dbg w ty a v = U_shl dbg w a v /\ U_Shr_prim dbg w ty a v = U_shr dbg w a v /\
+  I_Shl_prim dbg w ty a v = I_shl dbg w a v /\ I_Shr_prim dbg w ty a v = I_shr dbg w a v.
+Proof. exact Shl_prim_eq_inherent. Qed.
+Print Assumptions C17_shift_prim_amounts.
+
+(* bnum-typed amounts (unsigned or signed, any digit count) whose value fits u32 — in particular every
+   amount below BITS: the same outcome as the inherent method with that value *)
+Theorem C17_shift_bnum_amounts : forall dbg w (self_signed amt_signed : bool) a amt,
+  let v := if amt_signed then sval w amt else uval w amt in
+  0 <= v <= u32_max ->
+  Shl_bnum dbg w self_signed amt_signed a amt = (if self_signed then I_shl dbg w a v else U_shl dbg w a v) /\
+  Shr_bnum dbg w self_signed amt_signed a amt = (if self_signed then I_shr dbg w a v else U_shr dbg w a v).
+Proof. exact Shl_bnum_eq_inherent. Qed.
+Print Assumptions C17_shift_bnum_amounts.
+
+Theorem C17_shift_bnum_amounts_unrepresentable : forall dbg w (self_signed amt_signed : bool) a amt,
+  let v := if amt_signed then sval w amt else uval w amt in
+  (v < 0 \/ u32_max < v) ->
+  Shl_bnum dbg w self_signed amt_signed a amt = Panic /\ Shr_bnum dbg w self_signed amt_signed a amt = Panic.
+Proof. exact Shl_bnum_panics_out_of_u32. Qed.
+Print Assumptions C17_shift_bnum_amounts_unrepresentable.
+
+(* Add<digit>: the sum reduced mod 2^BITS; exact when representable *)
+Theorem C17_add_digit : forall w n a d, 0 < w -> (0 < n)%nat -> wf w n a -> 0 <= d < B w ->
+  wf w n (U_Add_digit w a d) /\ uval w (U_Add_digit w a d) = (uval w a + d) mod Mod w n.
+Proof. exact U_Add_digit_ok. Qed.
+Print Assumptions C17_add_digit.
+
+Theorem C17_add_digit_exact : forall w n a d, 0 < w -> (0 < n)%nat -> wf w n a -> 0 <= d < B w ->
+  uval w a + d < Mod w n -> uval w (U_Add_digit w a d) = uval w a + d.
+Proof. exact U_Add_digit_exact. Qed.
+Print Assumptions C17_add_digit_exact.
+
+(* Div<digit> / Rem<digit>: quotient and remainder by the digit (under C03's div_rem_digit theorem);
+   a zero digit panics in both build modes *)
+Theorem C17_div_rem_digit : div_digit_spec -> forall w n a d, 0 < w -> wf w n a -> 0 < d < B w ->
+  exists q r, U_Div_digit w a d = Ret q /\ U_Rem_digit w a d = Ret r /\
+              wf w n q /\ uval w q = uval w a / d /\ r = uval w a mod d.
+Proof. exact Div_Rem_digit_ok. Qed.
+Print Assumptions C17_div_rem_digit.
+
+Theorem C17_div_rem_digit_zero : forall w a, U_Div_digit w a 0 = Panic /\ U_Rem_digit w a 0 = Panic.
+Proof. exact Div_Rem_digit_zero. Qed.
+Print Assumptions C17_div_rem_digit_zero.
+
+(* Sum / Product are the left folds with + / * from ZERO / ONE (as outcomes: the first overflowing
+   prefix panics in debug builds) *)
+Theorem C17_sum_product_folds : forall dbg w n xs,
+  U_Sum dbg w n xs = fold_out (U_add dbg w) xs (ZERO n) /\
+  U_Product dbg w n xs = fold_out (U_mul dbg w) xs (ONE n) /\
+  I_Sum dbg w n xs = fold_out (I_add dbg w) xs (ZERO n) /\
+  I_Product dbg w n xs = fold_out (I_mul dbg w) xs (ONE n).
+Proof. exact Sum_Product_are_folds. Qed.
+Print Assumptions C17_sum_product_folds.
+
+Theorem C17_sum_exact : forall dbg w n xs, 0 < w -> Forall (wf w n) xs ->
+  forall acc, wf w n acc -> uval w acc + fold_right (fun x s => uval w x + s) 0 xs < Mod w n ->
+  exists r, fold_out (U_add dbg w) xs acc = Ret r /\ wf w n r /\
+            uval w r = uval w acc + fold_right (fun x s => uval w x + s) 0 xs.
+Proof. exact U_Sum_exact. Qed.
+Print Assumptions C17_sum_exact.
+
+Theorem C17_default : forall w n, uval w (Default n) = 0.
+Proof. intros. exact (ZERO_uval w n). Qed.
+Print Assumptions C17_default.
+
+Example C17_ex : U_Shl_prim true 8 AU64 [1; 0; 0] 9 = Ret [0; 2; 0] /\ U_Add_digit 8 [255; 255; 0] 1 = [0; 0; 1] /\
+  U_Sum true 8 2 [[1; 0]; [2; 0]; [255; 0]] = Ret [2; 1] /\ U_Sum true 8 1 [[200]; [100]] = Panic /\
+  U_Sum false 8 1 [[200]; [100]] = Ret [44].
+Proof. vm_compute. repeat split. Qed.
